@@ -4,11 +4,17 @@ else the sender raises after bounded retries; malformed frame sequences are reje
 
 Property theorems (`c06_*`) over Model/Ack.lean and Model/Frames.lean. They hold for EVERY history
 (`run (init …) ops`, any list of `Op`: the network adversary, the timers and the interleaving of
-the endpoints are unrestricted). Helper lemmas: Lemmas/C06Inv.lean (the 16-conjunct invariant
-`Inv`, its preservation by every step, the monotone facts `Later`, the retry-budget potential
-`Prog`) and `namespace Aux` below.
+the endpoints are unrestricted). Two levels: the Listener level (`delivered`: accepted by
+`_recv_one`, acknowledged) and the application level (`handled`: taken by the loop body / returned
+by `Bridge.recv_events`). Helper lemmas: Lemmas/C06Inv.lean (the 17-conjunct invariant `Inv`, its
+preservation by every step, the monotone facts `Later`, the retry-budget potential `Prog`),
+Lemmas/C06App.lean (`InvA`: where an accepted message is; `InvF`: what survives forged frames),
+Lemmas/C06Time.lean (the deadline potential `ProgT`), Lemmas/C06Forged.lean (`InvM`: accepted messages
+stay genuine when malformed lists are injected) and `namespace Aux` below.
 -/
-import EkwVerif.Lemmas.C06Inv
+import EkwVerif.Lemmas.C06App
+import EkwVerif.Lemmas.C06Time
+import EkwVerif.Lemmas.C06Forged
 import EkwVerif.Gen.RetryLoops
 
 namespace EkwVerif.Ack
@@ -25,11 +31,29 @@ def Reachable (s : Sys) : Prop :=
 def deliveredUnder (s : Sys) (b i a : Nat) : Nat :=
   ((s.ep b).delivered.filterMap (·.syn)).count (i, a)
 
+/-- everything the Listener of `b` accepted and that is owed to `b`'s application, by place:
+handed over, discarded by an abandoned iteration, waiting in `events`, waiting in the batch -/
+def accountedAt (s : Sys) (b : Nat) : List Delivery :=
+  (s.ep b).handled ++ (s.ep b).lost ++ (s.ep b).staged ++ payloads (s.ep b).batch
+
+/-- accepted, not yet handed over, not discarded: the iteration in progress will hand it over -/
+def pendingAt (s : Sys) (b : Nat) : List Delivery := (s.ep b).staged ++ payloads (s.ep b).batch
+
+/-- the delivery that message `m`, sent under `Syn(i, a)`, gives rise to -/
+def dlv (i a m : Nat) : Delivery := ⟨some (i, a), Parsed.msg (Msg.app m)⟩
+
 namespace Aux
 
 theorem reachable_inv {s : Sys} (h : Reachable s) : Inv s := by
   obtain ⟨m, cfg, ops, hm, rfl⟩ := h
   exact run_inv (init_inv m cfg hm) ops
+
+theorem reachable_invA {s : Sys} (h : Reachable s) : InvA s := by
+  obtain ⟨m, cfg, ops, hm, rfl⟩ := h
+  exact run_invA (init_invA m cfg) ops
+
+theorem accounted_perm {s : Sys} (h : InvA s) (b : Nat) : (accountedAt s b).Perm (s.ep b).delivered :=
+  h.split b
 
 theorem reachable_run {s : Sys} (h : Reachable s) (ops : List Op) : Reachable (run s ops) := by
   obtain ⟨m, cfg, ops0, hm, rfl⟩ := h
@@ -46,45 +70,30 @@ theorem count_one {s : Sys} (hi : Inv s) {b i a : Nat} (hack : (s.ep b).acked i 
   unfold deliveredUnder
   rw [(hi.del_nodup b).count]; simp [hmem]
 
-/-- `recv_messages` + dispatch (`drain`, used by the driver for one loop iteration) is a sequence
-of `recv` steps: every theorem about histories covers it. -/
-theorem drain_eq_run (a : Nat) (feeds : Bool) :
-    ∀ (fuel upto : Nat) (s : Sys), ∃ ops : List Op,
-      (∀ op ∈ ops, ∃ f, op = Op.recv a f) ∧ drain s a feeds upto fuel = run s ops := by
+/-- `recv_messages` (`recvMessages`) is a sequence of `collect` steps: every theorem about
+histories covers it. -/
+theorem recvMessages_eq_run (a : Nat) :
+    ∀ (fuel : Nat) (s : Sys), ∃ n : Nat, recvMessages s a fuel = run s (List.replicate n (Op.collect a)) := by
   intro fuel
   induction fuel with
-  | zero => intro upto s; exact ⟨[], by simp, rfl⟩
+  | zero => intro s; exact ⟨0, rfl⟩
   | succ n ih =>
-    intro upto s
+    intro s
     cases hin : (s.ep a).inbox with
-    | nil => exact ⟨[], by simp, by simp [drain, hin, run]⟩
+    | nil => exact ⟨0, by simp [recvMessages, hin, run]⟩
     | cons fs rest =>
-      by_cases hd : headIsDup s a = true
-      · exact ⟨[Op.recv a (feeds && decide (0 < upto))],
-          fun op hop => ⟨_, List.mem_singleton.mp hop⟩, by simp [drain, hin, hd, run, step]⟩
-      · obtain ⟨ops, hops, heq⟩ := ih (upto - 1) (recv s a (feeds && decide (0 < upto)))
-        refine ⟨Op.recv a (feeds && decide (0 < upto)) :: ops, ?_, ?_⟩
-        · intro op hop
-          rcases List.mem_cons.mp hop with h | h
-          · exact ⟨_, h⟩
-          · exact hops op h
-        · simp [drain, hin, hd, run, step, heq]
+      by_cases hd : headStops s a = true
+      · exact ⟨1, by simp [recvMessages, hin, hd, run, step]⟩
+      · obtain ⟨k, hk⟩ := ih (collect s a)
+        exact ⟨k + 1, by simp [recvMessages, hin, hd, run, step, hk, List.replicate_succ]⟩
 
-theorem iteration_retry (a q : Nat) (l : LoopInfo) (sends : List (Nat × Nat)) (h : l.callsRetry = true) :
-    iteration a q l sends =
-      (List.replicate q (Op.recv a l.feedsAck) ++ sends.map (fun hm => Op.send a hm.1 hm.2)) ++ [Op.retry a] := by
+theorem iteration_retry (a : Nat) (l : LoopInfo) (body : List Op) (h : l.callsRetry = true) :
+    iteration a l body = body ++ [Op.retry a] := by
   simp [iteration, h]
-
-theorem iteration_mid_no_retry (a q : Nat) (f : Bool) (sends : List (Nat × Nat)) :
-    Op.retry a ∉ List.replicate q (Op.recv a f) ++ sends.map (fun hm => Op.send a hm.1 hm.2) := by
-  intro h
-  rcases List.mem_append.mp h with h | h
-  · have := List.eq_of_mem_replicate h; cases this
-  · simp at h
 
 end Aux
 
-/-! ### at most once, and the right message -/
+/-! ### at most once, and the right message (Listener level) -/
 
 /-- **At most once.** In every reachable state, at every endpoint `b`: no two deliveries arrived
 under the same `Syn(idx, addr)`, and a message delivered under `Syn(i, a)` is exactly the message
@@ -98,14 +107,178 @@ theorem c06_at_most_once {s : Sys} (h : Reachable s) (b : Nat) :
   exact ⟨hi.del_nodup b, fun d hd i a hs => (hi.del_ok b d i a hd hs).1⟩
 
 /-- non-vacuity: a retransmitted message whose first copy AND retransmission both arrive is
-delivered once (two frames received, one delivery, two Acks) -/
+delivered once (two frames received, one accepted, two Acks) -/
 example :
     let s := run (init 20 (fun a => (800, lookup (if a = 0 then [(1, 1)] else [(0, 0)]))))
-      [.send 0 1 7, .tick 0 801, .retry 0, .deliver 0, .deliver 0, .recv 1 true, .recv 1 true]
+      [.send 0 1 7, .tick 0 801, .retry 0, .deliver 0, .deliver 0, .collect 1, .collect 1]
     ((s.ep 1).delivered.map (·.body)) = [Parsed.msg (Msg.app 7)] ∧ s.net.length = 2 := by
   decide
 
-/-! ### no silent loss -/
+/-! ### application level: what the loop body takes / `recv_events` returns -/
+
+/-- **At most once, application level.** In every reachable state, at every endpoint `b`: over
+everything the application was handed (`handled`) together with what is still waiting for it
+(`staged`, `batch`) and what an abandoned iteration discarded (`lost`), no Syn occurs twice — in
+particular nothing is handed over twice, and nothing is both handed over and discarded — and an
+entry under `Syn(i, a)` is exactly the message `a`'s `send` accepted under idx `i`, addressed to `b`. -/
+theorem c06_app_at_most_once {s : Sys} (h : Reachable s) (b : Nat) :
+    ((accountedAt s b).filterMap (·.syn)).Nodup ∧
+    ∀ d ∈ accountedAt s b, ∀ i a, d.syn = some (i, a) →
+      ∃ host m, (s.ep a).log i = some (host, m) ∧ (s.ep a).hosts0 host = some b ∧ d = dlv i a m := by
+  have hi := Aux.reachable_inv h
+  have hp := Aux.accounted_perm (Aux.reachable_invA h) b
+  refine ⟨(hp.filterMap _).nodup_iff.mpr (hi.del_nodup b), ?_⟩
+  intro d hd i a hs
+  obtain ⟨⟨host, m, hl, h0, hb⟩, _⟩ := hi.del_ok b d i a (hp.mem_iff.mp hd) hs
+  refine ⟨host, m, hl, h0, ?_⟩
+  cases d; simp only [dlv] at *; subst hs; subst hb; rfl
+
+/-- **Accounted for, application level** (every history, nothing excluded). Every message accepted
+by `send` is still in `inflight`, or the destination's Listener accepted it and it is in exactly
+one of: handed to the application, waiting in the iteration in progress, discarded by an abandoned
+iteration — exactly once over the three. -/
+theorem c06_app_accounted {s : Sys} (h : Reachable s) (a i : Nat) (hlt : i < (s.ep a).idx) :
+    ∃ host m, (s.ep a).log i = some (host, m) ∧
+      ((∃ r, (s.ep a).inflight i = some r ∧ r.host = host ∧ r.msg = m) ∨
+       (∃ b, (s.ep a).hosts0 host = some b ∧ (accountedAt s b).count (dlv i a m) = 1)) := by
+  have hi := Aux.reachable_inv h
+  rcases hi.infl a i hlt with hsome | ⟨host, m, b, hl, h0, hack⟩
+  · cases hr : (s.ep a).inflight i with
+    | none => simp [hr] at hsome
+    | some r => exact ⟨r.host, r.msg, hi.infl_rec a i r hr hlt, Or.inl ⟨r, rfl, rfl, rfl⟩⟩
+  · refine ⟨host, m, hl, Or.inr ⟨b, h0, ?_⟩⟩
+    rw [(Aux.accounted_perm (Aux.reachable_invA h) b).count_eq]
+    have huniq : ∀ d' ∈ (s.ep b).delivered, d'.syn = some (i, a) → d' = dlv i a m := by
+      intro d' hd' hs'
+      obtain ⟨⟨host', m', hl', _, hb'⟩, _⟩ := hi.del_ok b d' i a hd' hs'
+      rw [hl] at hl'; cases hl'
+      cases d'; simp only [dlv] at *; subst hs'; subst hb'; rfl
+    rw [count_eq_filterMap (dlv i a m) (i, a) rfl _ huniq]
+    exact Aux.count_one hi hack
+
+/-- Nothing is discarded except by an abandoned iteration: a step other than `abort b` leaves
+`lost` (and the count of abandoned iterations) of `b` as it is — in particular `recv_messages`
+itself never raises on what a non-forging network delivers. `abort b` discards exactly what was
+waiting. -/
+theorem c06_lost_only_by_abort {s : Sys} (h : Reachable s) (b : Nat) :
+    (∀ op, op ≠ Op.abort b →
+      ((step s op).ep b).lost = (s.ep b).lost ∧ ((step s op).ep b).aborts = (s.ep b).aborts) ∧
+    ((step s (Op.abort b)).ep b).lost = (s.ep b).lost ++ pendingAt s b ∧
+    ((step s (Op.abort b)).ep b).handled = (s.ep b).handled := by
+  refine ⟨fun op hop => step_lost (Aux.reachable_inv h) op b hop, ?_, ?_⟩
+  · simp [step, abort_ep, pendingAt, List.append_assoc]
+  · simp [step, abort_ep]
+
+/-- **Exactly once, application level — PARTIAL.** In a history in which the destination `b`
+never abandons an iteration (no `break` out of the dispatch, no handler exception, no
+`shutdown_reason`, hypothesis `Op.abort b ∉ ops`), every message accepted by `send` and addressed
+to `b` is still in flight, or it has been handed to `b`'s application or is waiting in `b`'s
+iteration in progress — exactly once over the two. Missing: histories with an abandoned iteration
+(`c06_app_exactly_once_full_fails`). -/
+theorem c06_app_exactly_once_partial (maxRetries : Nat) (cfg : Nat → Nat × (Nat → Option Nat)) (ops : List Op)
+    (hm : 1 ≤ maxRetries) (b : Nat) (hno : Op.abort b ∉ ops) :
+    let s := run (init maxRetries cfg) ops
+    ∀ a i host m, i < (s.ep a).idx → (s.ep a).log i = some (host, m) → (s.ep a).hosts0 host = some b →
+      (s.ep a).inflight i ≠ none ∨ ((s.ep b).handled ++ pendingAt s b).count (dlv i a m) = 1 := by
+  intro s a i host m hlt hl h0
+  have hr : Reachable s := ⟨maxRetries, cfg, ops, hm, rfl⟩
+  have hlost : (s.ep b).lost = [] := by
+    have h1 := run_lost (init_inv maxRetries cfg hm) ops b hno
+    have h2 := (Aux.reachable_invA hr).lost_aborts b
+    cases hl' : (s.ep b).lost with
+    | nil => rfl
+    | cons x xs =>
+      have : 0 < (s.ep b).aborts := h2 (by rw [hl']; simp)
+      have h3 : (s.ep b).aborts = 0 := by rw [h1.2]; simp [init, mkEndpoint]
+      omega
+  obtain ⟨host', m', hl', hcase⟩ := c06_app_accounted hr a i hlt
+  rw [hl] at hl'; cases hl'
+  rcases hcase with ⟨r, hr', _, _⟩ | ⟨b', h0', hc⟩
+  · left; rw [hr']; simp
+  · right
+    rw [h0] at h0'; cases h0'
+    simpa [accountedAt, pendingAt, hlost, List.append_assoc] using hc
+
+/-- The full statement (without the hypothesis on `b`) is false: the Listener acknowledges when it
+accepts, before the loop body sees the message. Witness: the message is accepted and acknowledged
+at `1`, the iteration is abandoned, the Ack reaches the sender — not in flight, never handed over.
+The harness replays such histories on the real loops (break at ExecutorShutdown, handler
+exception, `shutdown_reason` discarding collected events). -/
+theorem c06_app_exactly_once_full_fails :
+    ¬ ∀ (maxRetries : Nat) (cfg : Nat → Nat × (Nat → Option Nat)) (ops : List Op), 1 ≤ maxRetries → ∀ b,
+      let s := run (init maxRetries cfg) ops
+      ∀ a i host m, i < (s.ep a).idx → (s.ep a).log i = some (host, m) → (s.ep a).hosts0 host = some b →
+        (s.ep a).inflight i ≠ none ∨ ((s.ep b).handled ++ pendingAt s b).count (dlv i a m) = 1 := by
+  intro h
+  have := h 20 (fun a => (800, lookup (if a = 0 then [(1, 1)] else [(0, 0)])))
+    [.send 0 1 7, .deliver 0, .collect 1, .abort 1, .deliver 0, .collect 0, .process 0 true false]
+    (by decide) 1 0 0 1 7 (by decide) (by decide) (by decide)
+  revert this
+  decide
+
+/-- **An iteration that is not abandoned hands everything over.** From any state: when the loop
+body takes every message of the batch (`process`, with whatever flags) and `recv_events` returns
+(`commit`), nothing is waiting any more and everything that was waiting has been handed to the
+application; nothing is discarded. -/
+theorem c06_iteration_hands_over (a : Nat) :
+    ∀ (fl : List (Bool × Bool)) (s : Sys), (s.ep a).batch.length ≤ fl.length →
+      let s' := run s (fl.map (fun x => Op.process a x.1 x.2) ++ [Op.commit a])
+      (s'.ep a).batch = [] ∧ (s'.ep a).staged = [] ∧ (s'.ep a).lost = (s.ep a).lost ∧
+      (∀ d, d ∈ (s.ep a).handled ∨ d ∈ pendingAt s a → d ∈ (s'.ep a).handled) := by
+  intro fl
+  induction fl with
+  | nil =>
+    intro s hlen
+    have hb : (s.ep a).batch = [] := List.eq_nil_of_length_eq_zero (by simpa using hlen)
+    simp only [List.map_nil, List.nil_append, run, step, commit_ep, pendingAt, hb, payloads, List.filter_nil,
+      List.append_nil, if_true, true_and]
+    exact fun d hd => by simpa using hd
+  | cons x xs ih =>
+    intro s hlen
+    simp only [List.map_cons, List.cons_append, run, step]
+    have key : ((process s a x.1 x.2).ep a).batch.length ≤ xs.length ∧
+        ((process s a x.1 x.2).ep a).lost = (s.ep a).lost ∧
+        (∀ d, d ∈ (s.ep a).handled ∨ d ∈ pendingAt s a →
+          d ∈ ((process s a x.1 x.2).ep a).handled ∨ d ∈ pendingAt (process s a x.1 x.2) a) := by
+      cases hb : (s.ep a).batch with
+      | nil =>
+        rw [process_empty x.1 x.2 hb]
+        exact ⟨by simp [hb], rfl, fun d hd => hd⟩
+      | cons d0 rest =>
+        have hlen' : rest.length ≤ xs.length := by simpa [hb] using hlen
+        cases hd0 : d0.isAck with
+        | false =>
+          simp only [process_msg_ep x.1 x.2 hb hd0, pendingAt, hb, payloads_cons_msg _ hd0, true_and, if_true]
+          refine ⟨hlen', ?_⟩
+          intro d hd
+          cases x.2 <;> simp at hd ⊢ <;> grind
+        | true =>
+          obtain ⟨sy, body⟩ := d0
+          have : ∃ i', body = Parsed.msg (Msg.ack i') := by
+            cases body with
+            | msg m => cases m with
+              | ack i' => exact ⟨i', rfl⟩
+              | app m => simp [Delivery.isAck] at hd0
+            | payload h v => simp [Delivery.isAck] at hd0
+          obtain ⟨i', rfl⟩ := this
+          simp only [process_ack_ep x.1 x.2 hb, pendingAt, hb, payloads_cons_ack _ hd0, if_true]
+          exact ⟨hlen', trivial, fun d hd => hd⟩
+    obtain ⟨h1, h2, h3, h4⟩ := ih (process s a x.1 x.2) key.1
+    exact ⟨h1, h2, h3.trans key.2.1, fun d hd => h4 d (key.2.2 d hd)⟩
+
+/-- non-vacuity: a batch of a data message and an Ack at a Bridge-like endpoint: the message is
+staged, then returned; at an Executor-like endpoint the message is handled when taken -/
+example :
+    let s := run (init 20 (fun a => (800, lookup (if a = 0 then [(1, 1)] else [(0, 0)]))))
+      [.send 0 1 7, .send 1 0 9, .deliver 0, .deliver 0, .collect 1, .collect 0, .deliver 1, .collect 1]
+    let s1 := run s [.process 1 true false, .process 1 true false]
+    let s0 := run s [.process 0 true true]
+    let s0' := run s0 [.commit 0]
+    (s.ep 1).batch.length = 2 ∧ (s1.ep 1).handled = [dlv 0 0 7] ∧ ((s1.ep 1).inflight 0).isSome = false ∧
+    (s0.ep 0).handled = [] ∧ (s0.ep 0).staged = [dlv 0 1 9] ∧ (s0'.ep 0).handled = [dlv 0 1 9] := by
+  decide
+
+/-! ### no silent loss (Listener level) -/
 
 /-- **No silent loss.** Every message accepted by `send` (idx below the sender's counter) is, in
 every reachable state, still in `inflight` (with its host and payload), or has been handed to the
@@ -125,32 +298,42 @@ theorem c06_no_silent_loss {s : Sys} (h : Reachable s) (a i : Nat) (hlt : i < (s
     rw [hl] at hl'; cases hl'
     exact ⟨host, m, hl, Or.inr ⟨b, d, h0, hd, hs, hb⟩⟩
 
-/-- An `inflight` entry of an accepted message is removed only by the sender's own loop feeding
-it the matching `Ack`; no other step (loss, duplication, retries, other endpoints) removes it. -/
+/-- An `inflight` entry of an accepted message is removed only by the sender's own loop body
+taking the matching `Ack` out of its batch and feeding it to `sender.ack`; no other step (loss,
+duplication, retries, other endpoints, an Ack merely received) removes it. -/
 theorem c06_inflight_removed_only_by_ack {s : Sys} (h : Reachable s) (op : Op) (a i : Nat) (r : Rec)
     (hlt : i < (s.ep a).idx) (hr : (s.ep a).inflight i = some r)
     (hgone : ((step s op).ep a).inflight i = none) :
-    ∃ rest, op = Op.recv a true ∧ (s.ep a).inbox = ackFrames i :: rest := by
+    ∃ stage sy rest, op = Op.process a true stage ∧
+      (s.ep a).batch = ⟨sy, Parsed.msg (Msg.ack i)⟩ :: rest := by
   rcases step_infl (Aux.reachable_inv h) op a i r hlt hr with ⟨r', hr', _⟩ | ⟨_, hx⟩
   · rw [hr'] at hgone; cases hgone
   · exact hx
 
-/-- An `Ack(i)` addressed to `a` exists (on the wire or in a receive queue) only after some
-endpoint's application was handed the message sent under `Syn(i, a)`. -/
+/-- An `Ack(i)` addressed to `a` exists (on the wire, in a receive queue, or in `a`'s batch) only
+after some endpoint's Listener accepted the message sent under `Syn(i, a)` — which is therefore
+accounted for at that endpoint (`c06_app_accounted`). NOTE the Listener acknowledges when it
+accepts, i.e. BEFORE the application is handed the message (`c06_app_exactly_once_full_fails`). -/
 theorem c06_ack_only_after_delivery {s : Sys} (h : Reachable s) (a i : Nat)
-    (hack : (⟨a, ackFrames i⟩ : Packet) ∈ s.net ∨ ackFrames i ∈ (s.ep a).inbox) :
-    ∃ b d, d ∈ (s.ep b).delivered ∧ d.syn = some (i, a) := by
+    (hack : (⟨a, ackFrames i⟩ : Packet) ∈ s.net ∨ ackFrames i ∈ (s.ep a).inbox ∨
+      (∃ sy, (⟨sy, Parsed.msg (Msg.ack i)⟩ : Delivery) ∈ (s.ep a).batch)) :
+    ∃ b d, d ∈ (s.ep b).delivered ∧ d.syn = some (i, a) ∧ d ∈ accountedAt s b := by
   have hi := Aux.reachable_inv h
-  have hok : PktOk s a (ackFrames i) := by
-    rcases hack with h | h
-    · exact hi.wire_net _ h
-    · exact hi.wire_inbox a _ h
-  rcases hok with ⟨a', i', m, hh, heq, _, _⟩ | ⟨i', b, heq, hb⟩ | ⟨m, heq⟩
-  · simp [ackFrames, dataFrames] at heq
-  · simp [ackFrames] at heq; subst heq
+  have hacc : ∀ b, (s.ep b).acked i a = true → ∃ b d, d ∈ (s.ep b).delivered ∧ d.syn = some (i, a) ∧ d ∈ accountedAt s b := by
+    intro b hb
     obtain ⟨d, hd, hs⟩ := hi.acked_del b i a hb
-    exact ⟨b, d, hd, hs⟩
-  · simp [ackFrames] at heq
+    exact ⟨b, d, hd, hs, (Aux.accounted_perm (Aux.reachable_invA h) b).mem_iff.mpr hd⟩
+  rcases hack with hk | hk | ⟨sy, hk⟩
+  · rcases hi.wire_net _ hk with ⟨a', i', m, hh, heq, _, _⟩ | ⟨i', b, heq, hb⟩ | ⟨m, heq⟩
+    · simp [ackFrames, dataFrames] at heq
+    · simp [ackFrames] at heq; subst heq; exact hacc b hb
+    · simp [ackFrames] at heq
+  · rcases hi.wire_inbox a _ hk with ⟨a', i', m, hh, heq, _, _⟩ | ⟨i', b, heq, hb⟩ | ⟨m, heq⟩
+    · simp [ackFrames, dataFrames] at heq
+    · simp [ackFrames] at heq; subst heq; exact hacc b hb
+    · simp [ackFrames] at heq
+  · obtain ⟨c, hc⟩ := hi.batch_ok a _ i hk rfl
+    exact hacc c hc
 
 /-- In reachable states `_recv_one` never raises (every queued frame list is a legal shape). -/
 theorem c06_no_parse_error_reachable {s : Sys} (h : Reachable s) (a : Nat) : (s.ep a).errors = 0 := by
@@ -163,13 +346,15 @@ theorem c06_no_parse_error_reachable {s : Sys} (h : Reachable s) (a : Nat) : (s.
   rw [this ops _ (init_inv m cfg hm)]; rfl
 
 /-- non-vacuity: all copies lost, the message is still in flight; after the retransmission gets
-through it is delivered and, once the Ack arrives, no longer in flight -/
+through it is accepted and, once the Ack arrives and the loop body feeds it, no longer in flight -/
 example :
     let s1 := run (init 20 (fun a => (800, lookup (if a = 0 then [(1, 1)] else [(0, 0)]))))
       [.send 0 1 7, .drop 0, .tick 0 801, .retry 0]
-    let s2 := run s1 [.deliver 0, .recv 1 true, .deliver 0, .recv 0 true]
+    let s2 := run s1 [.deliver 0, .collect 1, .process 1 true false, .deliver 0, .collect 0]
+    let s3 := run s2 [.process 0 true false]
     ((s1.ep 0).inflight 0).isSome = true ∧ (s1.ep 1).delivered = [] ∧
-    ((s2.ep 0).inflight 0).isSome = false ∧ (s2.ep 1).delivered.length = 1 := by
+    ((s2.ep 0).inflight 0).isSome = true ∧ (s2.ep 1).handled.length = 1 ∧
+    ((s3.ep 0).inflight 0).isSome = false := by
   decide
 
 /-! ### bounded retries -/
@@ -199,20 +384,24 @@ theorem c06_bounded_retries {s : Sys} (h : Reachable s) (a i : Nat) :
   · intro r hlt hr
     exact ⟨hi.budget a i r hr hlt, hi.exhausted a i r hr hlt⟩
 
-/-- **The sender does raise.** Take any reachable state with message `i` of sender `a` in flight,
-and any continuation that contains `n ≥ remaining budget` timer rounds of `a` (each: arbitrary
-steps of anybody — `pre`; a's clock advances by more than the resend grace; arbitrary steps other
-than a's `maybe_retry` — `mid`; a's `maybe_retry`), followed by anything (`tail`). Then at the
-end the message has been acknowledged (hence delivered, `c06_no_silent_loss`), or the sender has
-raised, or the destination host was removed from the sender (`hosts.pop`, shutdown of that
-executor). The adversary may drop every frame: the conclusion is then "raised". -/
-theorem c06_raises_within_budget {s : Sys} (h : Reachable s) (a i : Nat) (r : Rec)
+/-- **The sender does raise — PARTIAL.** Take any reachable state with message `i` of sender `a`
+in flight to a host the sender still knows, and any continuation that contains `n ≥ remaining
+budget` timer rounds of `a` (each: arbitrary steps of anybody — `pre`; a's clock advances by more
+than the resend grace; arbitrary steps other than a's `maybe_retry` — `mid`; a's `maybe_retry`),
+followed by anything (`tail`), in which the destination host is never removed from the sender
+(`hosts.pop`, hypothesis `hpop`). Then at the end the message has been acknowledged (hence
+accepted, `c06_no_silent_loss`), or the sender has raised. The adversary may drop every frame: the
+conclusion is then "raised". Missing: continuations with `hosts.pop`
+(`c06_raises_within_budget_full_fails`). -/
+theorem c06_raises_within_budget_partial {s : Sys} (h : Reachable s) (a i : Nat) (r : Rec)
     (hlt : i < (s.ep a).idx) (hr : (s.ep a).inflight i = some r)
+    (hhost : (s.ep a).hosts r.host ≠ none)
     (rounds : List Round) (tail : List Op)
     (hrounds : ∀ x ∈ rounds, (s.ep a).grace < x.dt ∧ Op.retry a ∉ x.mid)
+    (hpop : Op.popHost a r.host ∉ roundsOps a rounds ++ tail)
     (hn : r.remaining ≤ rounds.length) :
     let s' := run s (roundsOps a rounds ++ tail)
-    (s'.ep a).inflight i = none ∨ (s'.ep a).raised = true ∨ (s'.ep a).hosts r.host = none := by
+    (s'.ep a).inflight i = none ∨ (s'.ep a).raised = true := by
   intro s'
   have hi := Aux.reachable_inv h
   have hp0 : Prog s a i r.host r.remaining := Or.inr (Or.inr (Or.inr ⟨r, hr, Int.le_refl _, rfl⟩))
@@ -227,11 +416,30 @@ theorem c06_raises_within_budget {s : Sys} (h : Reachable s) (a i : Nat) (r : Re
   have hlt' : i < (s'.ep a).idx := by
     show i < ((run s (roundsOps a rounds ++ tail)).ep a).idx
     rw [run_append]; exact Nat.lt_of_lt_of_le hlt1 (hl.idx a)
+  have hkeep : (s'.ep a).hosts r.host = (s.ep a).hosts r.host := run_hosts hi _ a r.host hpop
   rcases hp' with hp' | hp' | hp' | ⟨r', hr', h1, _⟩
-  · exact Or.inr (Or.inl hp')
-  · exact Or.inr (Or.inr hp')
+  · exact Or.inr hp'
+  · rw [hkeep] at hp'; exact absurd hp' hhost
   · exact Or.inl hp'
-  · exact Or.inr (Or.inl (hi'.exhausted a i r' hr' hlt' (by omega)))
+  · exact Or.inr (hi'.exhausted a i r' hr' hlt' (by omega))
+
+/-- The full statement (without `hpop`) is false: `maybe_retry` skips a record whose host was
+removed ("cannot retry … presumably we are at shutdown") — it stays in `inflight` for ever, is
+never retransmitted and never reported. Witness: one message, its only transmission lost, the host
+popped, then 20 timer rounds. The harness replays this history on the real ReliableSender. -/
+theorem c06_raises_within_budget_full_fails :
+    ¬ ∀ (s : Sys), Reachable s → ∀ (a i : Nat) (r : Rec), i < (s.ep a).idx → (s.ep a).inflight i = some r →
+      (s.ep a).hosts r.host ≠ none → ∀ (rounds : List Round) (tail : List Op),
+      (∀ x ∈ rounds, (s.ep a).grace < x.dt ∧ Op.retry a ∉ x.mid) → r.remaining ≤ rounds.length →
+        ((run s (roundsOps a rounds ++ tail)).ep a).inflight i = none ∨
+        ((run s (roundsOps a rounds ++ tail)).ep a).raised = true := by
+  intro h
+  let cfg : Nat → Nat × (Nat → Option Nat) := fun a => (800, lookup (if a = 0 then [(1, 1)] else [(0, 0)]))
+  have hreach : Reachable (run (init 20 cfg) [.send 0 1 7, .drop 0]) := ⟨20, cfg, _, by decide, rfl⟩
+  have := h _ hreach 0 0 ⟨1, 7, 0, 20⟩ (by decide) (by decide) (by decide)
+    (List.replicate 20 { pre := [Op.popHost 0 1], dt := 801, mid := [] }) [] (by decide) (by decide)
+  revert this
+  decide
 
 /-- The budget of every in-flight message is at most `maxRetries`: `maxRetries` timer rounds
 always suffice in `c06_raises_within_budget`. -/
@@ -243,50 +451,50 @@ theorem c06_budget_le_max {s : Sys} (h : Reachable s) (a i : Nat) (r : Rec)
   omega
 
 /-- ops of a sequence of iterations of loop `l` at endpoint `a`; each element of `iters` is
-(arbitrary steps before, clock advance, number of queued messages received, own sends) -/
-def loopOps (a : Nat) (l : LoopInfo) (iters : List (List Op × Nat × Nat × List (Nat × Nat))) : List Op :=
-  iters.flatMap (fun x => x.1 ++ [Op.tick a x.2.1] ++ iteration a x.2.2.1 l x.2.2.2)
+(arbitrary steps before, clock advance, body of the iteration: receive, dispatch, own sends,
+commit or abort — anything but `maybe_retry`) -/
+def loopOps (a : Nat) (l : LoopInfo) (iters : List (List Op × Nat × List Op)) : List Op :=
+  iters.flatMap (fun x => x.1 ++ [Op.tick a x.2.1] ++ iteration a l x.2.2)
 
 /-- "a sender driven by loop `l` raises within the budget": from any reachable state with message
-`i` in flight at `a`, after `maxRetries` iterations of `l` at `a`, each preceded by a clock advance
-beyond the resend grace (and by arbitrary steps of anybody, the network adversary included), the
-message was acknowledged, or the sender raised, or the destination host was removed. -/
+`i` in flight at `a` to a host the sender knows, after `maxRetries` iterations of `l` at `a`, each
+preceded by a clock advance beyond the resend grace (and by arbitrary steps of anybody, the network
+adversary included), none of which removes the destination host, the message was acknowledged or
+the sender raised. -/
 def LoopRaises (l : LoopInfo) : Prop :=
   ∀ (s : Sys), Reachable s → ∀ (a i : Nat) (r : Rec), i < (s.ep a).idx → (s.ep a).inflight i = some r →
-    ∀ iters : List (List Op × Nat × Nat × List (Nat × Nat)),
-      (∀ x ∈ iters, (s.ep a).grace < x.2.1) → s.maxRetries ≤ iters.length →
+    (s.ep a).hosts r.host ≠ none →
+    ∀ iters : List (List Op × Nat × List Op),
+      (∀ x ∈ iters, (s.ep a).grace < x.2.1 ∧ Op.retry a ∉ x.2.2) →
+      Op.popHost a r.host ∉ loopOps a l iters → s.maxRetries ≤ iters.length →
         ((run s (loopOps a l iters)).ep a).inflight i = none ∨
-        ((run s (loopOps a l iters)).ep a).raised = true ∨
-        ((run s (loopOps a l iters)).ep a).hosts r.host = none
+        ((run s (loopOps a l iters)).ep a).raised = true
 
 namespace Aux
 theorem loopOps_rounds (a : Nat) (l : LoopInfo) (hl : l.callsRetry = true)
-    (iters : List (List Op × Nat × Nat × List (Nat × Nat))) :
-    loopOps a l iters = roundsOps a (iters.map (fun x =>
-      { pre := x.1, dt := x.2.1,
-        mid := List.replicate x.2.2.1 (Op.recv a l.feedsAck) ++ x.2.2.2.map (fun hm => Op.send a hm.1 hm.2) })) := by
+    (iters : List (List Op × Nat × List Op)) :
+    loopOps a l iters = roundsOps a (iters.map (fun x => { pre := x.1, dt := x.2.1, mid := x.2.2 })) := by
   induction iters with
   | nil => rfl
   | cons x xs ih =>
     simp only [loopOps, List.flatMap_cons, List.map_cons, roundsOps, Round.ops] at ih ⊢
-    rw [Aux.iteration_retry _ _ _ _ hl, ih]
+    rw [Aux.iteration_retry _ _ _ hl, ih]
     simp [List.append_assoc]
 end Aux
 
 /-- The same in terms of endpoint-loop iterations: a loop whose row in the table says
 `callsRetry` makes its sender raise within the budget (iterations are timer rounds). -/
 theorem c06_loop_raises_within_budget (l : LoopInfo) (hl : l.callsRetry = true) : LoopRaises l := by
-  intro s h a i r hlt hr iters hdt hn
+  intro s h a i r hlt hr hhost iters hdt hpop hn
   have hb := c06_budget_le_max h a i r hlt hr
-  have := c06_raises_within_budget h a i r hlt hr
-    (iters.map (fun x =>
-      { pre := x.1, dt := x.2.1,
-        mid := List.replicate x.2.2.1 (Op.recv a l.feedsAck) ++ x.2.2.2.map (fun hm => Op.send a hm.1 hm.2) })) []
+  have := c06_raises_within_budget_partial h a i r hlt hr hhost
+    (iters.map (fun x => { pre := x.1, dt := x.2.1, mid := x.2.2 })) []
     (by
       intro x hx
       simp only [List.mem_map] at hx
       obtain ⟨y, hy, rfl⟩ := hx
-      exact ⟨hdt y hy, Aux.iteration_mid_no_retry _ _ _ _⟩)
+      exact hdt y hy)
+    (by rw [List.append_nil, ← Aux.loopOps_rounds a l hl]; exact hpop)
     (by simp only [List.length_map]; omega)
   simp only [List.append_nil] at this
   rw [Aux.loopOps_rounds a l hl]
@@ -300,31 +508,83 @@ example :
     (s.ep 0).raised = true ∧ (s.ep 0).sends 0 = 3 ∧ ((s.ep 0).inflight 0).isSome = true := by
   decide
 
+/-! ### raising by a deadline: finite poll timeouts -/
+
+/-- **The sender raises by a deadline — PARTIAL.** No assumption that iterations are far apart:
+take any reachable state with message `i` of sender `a` in flight to a host the sender knows, and
+any sequence of iterations of `a`'s loop, each lasting at most `B` ms (`TIter.Ok`: the blocking
+poll returns within `B`; `a`'s clock advances only there; each iteration ends with
+`maybe_retry`), in which the host is not removed. Once more than
+`remaining budget × (resend grace + B)` ms have passed on `a`'s clock, the message has been
+acknowledged or the sender has raised — whatever the network did in between. Missing: `hosts.pop`
+(`c06_raises_within_budget_full_fails`). A loop whose poll has no timeout has no such `B`
+(`c06_steady_loops_poll_finite`). -/
+theorem c06_raises_by_deadline_partial {s : Sys} (h : Reachable s) (a i : Nat) (r : Rec) (B : Nat)
+    (hlt : i < (s.ep a).idx) (hr : (s.ep a).inflight i = some r)
+    (hhost : (s.ep a).hosts r.host ≠ none)
+    (xs : List TIter) (hxs : ∀ x ∈ xs, x.Ok a B)
+    (hpop : Op.popHost a r.host ∉ titersOps a xs)
+    (htime : r.remaining.toNat * ((s.ep a).grace + B) < totalDt xs) :
+    let s' := run s (titersOps a xs)
+    (s'.ep a).inflight i = none ∨ (s'.ep a).raised = true := by
+  intro s'
+  have hi := Aux.reachable_inv h
+  have hp0 : ProgT s a i r.host (s.ep a).grace B (s.ep a).now r.remaining.toNat := by
+    right; right; right
+    refine ⟨r, r.remaining.toNat, hr, rfl, by omega, Nat.le_refl _, Or.inr (Nat.le_refl _), ?_⟩
+    have := hi.sent_le a i r hr
+    omega
+  obtain ⟨hp, hi', hlt', hnow⟩ := ProgT.afterIters xs s hi hlt rfl hxs hp0
+  have hkeep : (s'.ep a).hosts r.host = (s.ep a).hosts r.host := run_hosts hi _ a r.host hpop
+  rcases hp with hp | hp | hp | ⟨r', k, hr', _, hrem, _, hnw, hbound⟩
+  · exact Or.inr hp
+  · rw [hkeep] at hp; exact absurd hp hhost
+  · exact Or.inl hp
+  · right
+    cases k with
+    | zero => exact hi'.exhausted a i r' hr' hlt' (by simpa using hrem)
+    | succ k' =>
+      exfalso
+      have hmul : (k' + 1) * ((s.ep a).grace + B) = k' * ((s.ep a).grace + B) + ((s.ep a).grace + B) :=
+        Nat.succ_mul _ _
+      rcases hnw with hnw | hnw <;> omega
+
+/-- non-vacuity: grace 800, poll timeout 800, budget 2, black-hole network: after 5 silent
+iterations (4000 ms > 2 × 1600 ms) the sender has raised; the iterations are only 800 ms long,
+which `c06_raises_within_budget_partial` does not cover -/
+example :
+    let s := run (init 2 (fun a => (800, lookup (if a = 0 then [(1, 1)] else [(0, 0)])))) [.send 0 1 7, .drop 0]
+    let xs : List TIter := List.replicate 5 { pre := [Op.drop 0], dt := 800, body := [Op.collect 0] }
+    ((run s (titersOps 0 xs)).ep 0).raised = true ∧ totalDt xs = 4000 := by
+  decide
+
 /-! ### one surviving copy suffices -/
 
 /-- **Delivery if one copy survives.**
-(1) If a receive step at `b` processes a data frame `[Syn(i,a), m]` — some transmission survived
+(1) If the Listener of `b` processes a data frame `[Syn(i,a), m]` — some transmission survived
 the network — then an `Ack(i)` to `a` is emitted and from then on, whatever happens (further
-duplicates, retries, anything), `b`'s application has been handed exactly one message under
-`Syn(i, a)`, and it is `m`.
-(2) If a receive step of `a`'s loop (a loop that feeds Acks) processes `Ack(i)` — some
+duplicates, retries, anything), `b` has accepted exactly one message under `Syn(i, a)`, it is `m`,
+and it is accounted for exactly once at `b` (handed over, waiting, or discarded by an abandoned
+iteration).
+(2) If the loop body of `a` (a loop that feeds Acks) takes `Ack(i)` out of its batch — some
 acknowledgement survived — then message `i` leaves `inflight` and from then on is never
 transmitted again (so it can never make the sender raise). -/
 theorem c06_delivers_if_one_survives {s : Sys} (h : Reachable s) :
-    (∀ (b i a m : Nat) (rest : List (List Frame)) (feeds : Bool) (tail : List Op),
+    (∀ (b i a m : Nat) (rest : List (List Frame)) (tail : List Op),
       (s.ep b).inbox = dataFrames i a m :: rest →
-        (⟨a, ackFrames i⟩ : Packet) ∈ (recv s b feeds).net ∧
-        deliveredUnder (run (recv s b feeds) tail) b i a = 1 ∧
-        ∀ d ∈ ((run (recv s b feeds) tail).ep b).delivered, d.syn = some (i, a) →
-          d.body = Parsed.msg (Msg.app m)) ∧
-    (∀ (a i : Nat) (rest : List (List Frame)) (tail : List Op),
-      (s.ep a).inbox = ackFrames i :: rest → i < (s.ep a).idx →
-        ((run (recv s a true) tail).ep a).inflight i = none ∧
-        ((run (recv s a true) tail).ep a).sends i = (s.ep a).sends i) := by
+        (⟨a, ackFrames i⟩ : Packet) ∈ (collect s b).net ∧
+        deliveredUnder (run (collect s b) tail) b i a = 1 ∧
+        (accountedAt (run (collect s b) tail) b).count (dlv i a m) = 1 ∧
+        ∀ d ∈ ((run (collect s b) tail).ep b).delivered, d.syn = some (i, a) → d = dlv i a m) ∧
+    (∀ (a i : Nat) (sy : Option SynId) (rest : List Delivery) (stage : Bool) (tail : List Op),
+      (s.ep a).batch = ⟨sy, Parsed.msg (Msg.ack i)⟩ :: rest → i < (s.ep a).idx →
+        ((run (process s a true stage) tail).ep a).inflight i = none ∧
+        ((run (process s a true stage) tail).ep a).sends i = (s.ep a).sends i) := by
   have hi := Aux.reachable_inv h
   constructor
-  · intro b i a m rest feeds tail hin
-    have hi1 : Inv (recv s b feeds) := recv_inv hi b feeds
+  · intro b i a m rest tail hin
+    have hi1 : Inv (collect s b) := collect_inv hi b
+    have hr1 : Reachable (run (collect s b) tail) := Aux.reachable_run h (Op.collect b :: tail)
     have hok := hi.wire_inbox b _ (by rw [hin]; exact List.mem_cons_self)
     have hlog : ∃ host, (s.ep a).log i = some (host, m) := by
       rcases hok with ⟨a', i', m', hh, heq, hl, _⟩ | ⟨i', c, heq, _⟩ | ⟨m', heq⟩
@@ -332,22 +592,28 @@ theorem c06_delivers_if_one_survives {s : Sys} (h : Reachable s) :
       · simp [dataFrames, ackFrames] at heq
       · simp [dataFrames] at heq
     obtain ⟨host, hlog⟩ := hlog
-    have hack1 : ((recv s b feeds).ep b).acked i a = true := by
+    have hack1 : ((collect s b).ep b).acked i a = true := by
       cases hack : (s.ep b).acked i a with
-      | true => rw [recv_data_dup_ep feeds hin hack]; exact hack
-      | false => rw [recv_data_new_ep feeds hin hack]; simp
+      | true => rw [collect_data_dup_ep hin hack]; exact hack
+      | false => rw [collect_data_new_ep hin hack]; simp
     have hl := run_later hi1 tail
     have hi2 := run_inv hi1 tail
-    refine ⟨by rw [recv_data_net feeds hin]; simp, Aux.count_one hi2 (hl.acked _ _ _ hack1), ?_⟩
-    intro d hd hs
-    obtain ⟨⟨host', m', hl', _, hb⟩, _⟩ := hi2.del_ok b d i a hd hs
-    have := hl.log a i _ ((recv_later hi b feeds).log a i _ hlog)
-    rw [this] at hl'; cases hl'; exact hb
-  · intro a i rest tail hin hlt
-    have hi1 : Inv (recv s a true) := recv_inv hi a true
-    have hnone : ((recv s a true).ep a).inflight i = none := by rw [recv_ack_ep true hin]; simp
-    have hsends : ((recv s a true).ep a).sends i = (s.ep a).sends i := by rw [recv_ack_ep true hin]
-    have hidx : ((recv s a true).ep a).idx = (s.ep a).idx := by rw [recv_ack_ep true hin]
+    have hbody : ∀ d ∈ ((run (collect s b) tail).ep b).delivered, d.syn = some (i, a) → d = dlv i a m := by
+      intro d hd hs
+      obtain ⟨⟨host', m', hl', _, hb⟩, _⟩ := hi2.del_ok b d i a hd hs
+      have := hl.log a i _ ((collect_later hi b).log a i _ hlog)
+      rw [this] at hl'; cases hl'
+      cases d; simp only [dlv] at *; subst hs; subst hb; rfl
+    have hcount := Aux.count_one hi2 (hl.acked _ _ _ hack1)
+    refine ⟨by rw [collect_data_net hin]; simp, hcount, ?_, hbody⟩
+    rw [(Aux.accounted_perm (Aux.reachable_invA hr1) b).count_eq,
+      count_eq_filterMap (dlv i a m) (i, a) rfl _ hbody]
+    exact hcount
+  · intro a i sy rest stage tail hb hlt
+    have hi1 : Inv (process s a true stage) := process_inv hi a true stage
+    have hnone : ((process s a true stage).ep a).inflight i = none := by rw [process_ack_ep true stage hb]; simp
+    have hsends : ((process s a true stage).ep a).sends i = (s.ep a).sends i := by rw [process_ack_ep true stage hb]
+    have hidx : ((process s a true stage).ep a).idx = (s.ep a).idx := by rw [process_ack_ep true stage hb]
     have := (run_later hi1 tail).inflNone a i (by rw [hidx]; exact hlt) hnone
     exact ⟨this.1, by rw [this.2, hsends]⟩
 
@@ -355,10 +621,10 @@ theorem c06_delivers_if_one_survives {s : Sys} (h : Reachable s) :
 afterwards even a duplicate of the data frame and further timer rounds change nothing -/
 example :
     let s := run (init 20 (fun a => (800, lookup (if a = 0 then [(1, 1)] else [(0, 0)]))))
-      [.send 0 1 7, .drop 0, .tick 0 801, .retry 0, .dup 0, .recv 1 true, .deliver 1, .recv 0 true,
-       .deliver 0, .recv 1 true, .tick 0 5000, .retry 0]
-    deliveredUnder s 1 0 0 = 1 ∧ ((s.ep 0).inflight 0).isSome = false ∧ (s.ep 0).sends 0 = 2 ∧
-      (s.ep 0).raised = false := by
+      [.send 0 1 7, .drop 0, .tick 0 801, .retry 0, .dup 0, .collect 1, .process 1 true false, .deliver 1,
+       .collect 0, .process 0 true false, .deliver 0, .collect 1, .tick 0 5000, .retry 0]
+    deliveredUnder s 1 0 0 = 1 ∧ (s.ep 1).handled = [dlv 0 0 7] ∧ ((s.ep 0).inflight 0).isSome = false ∧
+      (s.ep 0).sends 0 = 2 ∧ (s.ep 0).raised = false := by
   decide
 
 /-! ### the frame-sequence parser -/
@@ -395,6 +661,106 @@ example :
     (recvOne (fun _ _ => false) [.syn 3 1, .syn 3 1]).ack = some (1, 3) :=
   ⟨rfl, rfl, rfl, rfl, rfl, rfl, rfl, rfl, rfl, rfl⟩
 
+/-! ### malformed and forged frame sequences inside histories -/
+
+/-- **A malformed frame sequence is rejected, whatever the state.** When `_recv_one` (inside
+`recv_messages`) meets a frame list that no legal shape matches, nothing is accepted, nothing is
+handed to the application, and either (a) the call raises, `recv_messages` propagates the exception
+and what it had collected so far — accepted and ACKNOWLEDGED messages — is discarded together with
+the iteration (`lost`), or (b) the list starts with an already acknowledged Syn followed by at
+least one more frame and is swallowed as a retransmission (returns None). Holds in ANY state, so
+also after arbitrary forged traffic. -/
+theorem c06_malformed_rejected (s : Sys) (a : Nat) (fs : List Frame) (rest : List (List Frame))
+    (hin : (s.ep a).inbox = fs :: rest) (hbad : Malformed fs) :
+    ((collect s a).ep a).delivered = (s.ep a).delivered ∧ ((collect s a).ep a).handled = (s.ep a).handled ∧
+    ((((collect s a).ep a).errors = (s.ep a).errors + 1 ∧ ((collect s a).ep a).batch = [] ∧
+        ((collect s a).ep a).staged = [] ∧ ((collect s a).ep a).lost = (s.ep a).lost ++ pendingAt s a) ∨
+     ((∃ i ad f tl, fs = Frame.syn i ad :: f :: tl ∧ (s.ep a).acked i ad = true) ∧
+        ((collect s a).ep a).errors = (s.ep a).errors ∧ ((collect s a).ep a).batch = (s.ep a).batch ∧
+        ((collect s a).ep a).staged = (s.ep a).staged ∧ ((collect s a).ep a).lost = (s.ep a).lost)) := by
+  obtain ⟨e, he⟩ := hbad
+  have hnot : ∀ p, (recvOne (s.ep a).acked fs).res ≠ .ok (some p) := by
+    intro p hp
+    obtain ⟨syn, hleg, _⟩ := (recv_some_iff (s.ep a).acked fs p).mp hp
+    have := (parse_iff fs syn p).mpr hleg
+    rw [he] at this; cases this
+  simp only [collect, hin, setEp_ep, ↓reduceIte]
+  cases hres : (recvOne (s.ep a).acked fs).res with
+  | error e' =>
+    refine ⟨rfl, rfl, Or.inl ⟨rfl, rfl, rfl, ?_⟩⟩
+    simp [abortEp, pendingAt, List.append_assoc]
+  | ok o =>
+    cases o with
+    | some p => exact absurd hres (hnot p)
+    | none =>
+      exact ⟨rfl, rfl, Or.inr ⟨(recv_none_iff (s.ep a).acked fs).mp hres, rfl, rfl, rfl, rfl⟩⟩
+
+/-- **Never twice, even with forged frames.** In every history of a frame-forging adversary
+(`runF`: arbitrary frame lists injected into any receive queue, well-formed ones included), at every
+endpoint no Syn is accepted twice, and over handed-over / waiting / discarded no Syn occurs twice. -/
+theorem c06_forged_never_twice (maxRetries : Nat) (cfg : Nat → Nat × (Nat → Option Nat)) (ops : List OpF) (b : Nat) :
+    let s := runF (init maxRetries cfg) ops
+    ((s.ep b).delivered.filterMap (·.syn)).Nodup ∧ ((accountedAt s b).filterMap (·.syn)).Nodup := by
+  intro s
+  have hF : InvF s := runF_invF (init_invF maxRetries cfg) ops
+  have hA : InvA s := runF_invA (init_invA maxRetries cfg) ops
+  exact ⟨hF.del_nodup b, ((hA.split b).filterMap _).nodup_iff.mpr (hF.del_nodup b)⟩
+
+/-- **Never delivered as a different message — in histories.** Whatever malformed frame lists are
+injected into whichever receive queues, at whatever moments (`runF`, hypothesis: every injected list
+is malformed), everything any Listener accepts — hence everything any application is handed, has
+waiting, or lost to an abandoned iteration — is genuine: under `Syn(i, a)` exactly the message
+`a`'s `send` accepted under idx `i` for this endpoint, without a Syn exactly a message a local
+`callback` put there. A malformed list is never turned into a message, and it never changes which
+message a Syn stands for. -/
+theorem c06_malformed_never_delivered (maxRetries : Nat) (cfg : Nat → Nat × (Nat → Option Nat)) (ops : List OpF)
+    (hops : ∀ a fs, OpF.inject a fs ∈ ops → Malformed fs) (b : Nat) :
+    let s := runF (init maxRetries cfg) ops
+    ∀ d ∈ accountedAt s b,
+      (∃ i a h m, d = dlv i a m ∧ (s.ep a).log i = some (h, m) ∧ (s.ep a).hosts0 h = some b) ∨
+      (∃ m, d = ⟨none, Parsed.msg (Msg.app m)⟩ ∧ m ∈ (s.ep b).locals) := by
+  intro s d hd
+  have hM : InvM s := runF_invM (init_invM maxRetries cfg) ops hops
+  have hA : InvA s := runF_invA (init_invA maxRetries cfg) ops
+  exact hM.del_ok b d ((hA.split b).mem_iff.mp hd)
+
+/-- non-vacuity: a genuine message, a local one, and three malformed lists (one of them naming the
+genuine message's Syn, swallowed as a retransmission) — two messages accepted, both genuine -/
+example :
+    let s := runF (init 20 (fun a => (800, lookup (if a = 0 then [(1, 1)] else [(0, 0)]))))
+      [.op (.send 0 1 7), .op (.localMsg 1 5), .inject 1 [Frame.syn 3 0], .op (.collect 1), .op (.collect 1),
+       .inject 1 [Frame.msg (Msg.app 9), Frame.msg (Msg.app 9)], .op (.collect 1), .op (.deliver 0),
+       .inject 1 [Frame.syn 0 0, Frame.junk 1], .op (.collect 1), .op (.collect 1)]
+    (s.ep 1).delivered = [⟨none, Parsed.msg (Msg.app 5)⟩, dlv 0 0 7] ∧ (s.ep 1).errors = 2 := by
+  decide
+
+/-- **With malformed frames, exactly-once at application level fails even if no loop abandons an
+iteration of its own accord.** Witness (replayed by the harness on the real Listener and loops):
+message 7 from `0` arrives at `1`; behind it in the queue sits a lone `Syn` frame (malformed). The
+first `_recv_one` accepts and ACKNOWLEDGES message 7, the second one raises, `recv_messages`
+propagates, the collected message is gone; the Ack reaches the sender: not in flight, never handed
+over, the sender never raises (the receiver's loop fails loudly instead). -/
+theorem c06_app_exactly_once_forged_fails :
+    ¬ ∀ (maxRetries : Nat) (cfg : Nat → Nat × (Nat → Option Nat)) (ops : List OpF), 1 ≤ maxRetries →
+      (∀ a fs, OpF.inject a fs ∈ ops → Malformed fs) → (∀ b, OpF.op (Op.abort b) ∉ ops) → ∀ b,
+      let s := runF (init maxRetries cfg) ops
+      ∀ a i host m, i < (s.ep a).idx → (s.ep a).log i = some (host, m) → (s.ep a).hosts0 host = some b →
+        (s.ep a).inflight i ≠ none ∨ ((s.ep b).handled ++ pendingAt s b).count (dlv i a m) = 1 := by
+  intro h
+  have := h 20 (fun a => (800, lookup (if a = 0 then [(1, 1)] else [(0, 0)])))
+    [.op (.send 0 1 7), .op (.deliver 0), .inject 1 [Frame.syn 9 0], .op (.collect 1), .op (.collect 1),
+     .op (.deliver 0), .op (.collect 0), .op (.process 0 true false)]
+    (by decide)
+    (by
+      intro a fs hmem
+      simp at hmem
+      obtain ⟨rfl, rfl⟩ := hmem
+      exact ⟨_, rfl⟩)
+    (by intro b hmem; simp at hmem)
+    1 0 0 1 7 (by decide) (by decide) (by decide)
+  revert this
+  decide
+
 /-! ### the endpoint loops (generated table `Gen.RetryLoops`) -/
 
 /-- `comms.max_retries_per_message ≥ 1` (needed by `Reachable`: with 0 the first retry would be the
@@ -416,6 +782,14 @@ theorem c06_retry_loops_ok_full_fails :
     ¬ ∀ l ∈ EkwVerif.Gen.RetryLoops.loops, l.phase ≠ Phase.startup → l.feedsAck = true ∧ l.callsRetry = true := by
   decide
 
+/-- Every receive loop of the table that runs while messages may be in flight polls with a FINITE
+timeout (`recv_messages(timeout_ms=…)` with an integer, or the default `default_timeout_ms`): an
+iteration — and with it `maybe_retry` — happens at least every `timeout` ms however silent the
+network is. (`timeout_ms=None` would be `none` here and block for ever.) -/
+theorem c06_steady_loops_poll_finite :
+    ∀ l ∈ EkwVerif.Gen.RetryLoops.loops, l.phase ≠ Phase.startup → l.timeoutMs.isSome = true := by
+  decide
+
 /-- Senders driven by the steady-state loops of the table raise within the budget. PARTIAL: only
 the steady-state loops; what is missing is the shutdown loop (`c06_loop_raises_full_fails`). -/
 theorem c06_loop_raises_partial :
@@ -423,18 +797,48 @@ theorem c06_loop_raises_partial :
   intro l hl hp
   exact c06_loop_raises_within_budget l (c06_retry_loops_ok_partial l hl hp).2
 
+/-- **Deadline for the steady-state loops, in the constants of the source.** For every steady
+loop of the table, with its own poll timeout `T`, `comms.default_message_resend_ms` as resend
+grace and `comms.max_retries_per_message` as budget: whatever the network does, once more than
+`max_retries × (resend_ms + T + slack)` ms have passed at a sender whose loop iterates (each
+iteration: poll ≤ `T`, work ≤ `slack`), every message in flight to a host it still knows has been
+acknowledged or the sender has raised. PARTIAL as `c06_loop_raises_partial` (steady loops only,
+host not removed). -/
+theorem c06_steady_loops_deadline_partial :
+    ∀ l ∈ EkwVerif.Gen.RetryLoops.loops, l.phase = Phase.steady → ∃ T, l.timeoutMs = some T ∧
+      ∀ (slack : Nat) (s : Sys), Reachable s → ∀ (a i : Nat) (r : Rec),
+        (s.ep a).grace = EkwVerif.Gen.RetryLoops.resendGraceMs → s.maxRetries = EkwVerif.Gen.RetryLoops.maxRetries →
+        i < (s.ep a).idx → (s.ep a).inflight i = some r → (s.ep a).hosts r.host ≠ none →
+        ∀ xs : List TIter, (∀ x ∈ xs, x.Ok a (T + slack)) → Op.popHost a r.host ∉ titersOps a xs →
+          EkwVerif.Gen.RetryLoops.maxRetries * (EkwVerif.Gen.RetryLoops.resendGraceMs + (T + slack)) < totalDt xs →
+            ((run s (titersOps a xs)).ep a).inflight i = none ∨ ((run s (titersOps a xs)).ep a).raised = true := by
+  intro l hl hp
+  have hfin := c06_steady_loops_poll_finite l hl (by rw [hp]; decide)
+  cases hT : l.timeoutMs with
+  | none => rw [hT] at hfin; cases hfin
+  | some T =>
+    refine ⟨T, rfl, ?_⟩
+    intro slack s h a i r hg hmax hlt hr hhost xs hxs hpop htime
+    have hb := c06_budget_le_max h a i r hlt hr
+    refine c06_raises_by_deadline_partial h a i r (T + slack) hlt hr hhost xs hxs hpop ?_
+    rw [hg]
+    have h1 : r.remaining.toNat ≤ EkwVerif.Gen.RetryLoops.maxRetries := by rw [← hmax]; omega
+    exact Nat.lt_of_le_of_lt (Nat.mul_le_mul_right _ h1) htime
+
 /-- The full statement fails: in the model of the pinned `Bridge.shutdown` loop a lost
 `ExecutorShutdown` is neither resent nor reported, however long the loop runs. Witness: one
 message, its only transmission dropped, then 20 iterations each after 1001 ms. The harness replays
 this history on the real `Bridge.shutdown` on every run. -/
 theorem c06_loop_raises_full_fails : ¬ ∀ l ∈ EkwVerif.Gen.RetryLoops.loops, LoopRaises l := by
   intro h
-  let l : LoopInfo := { name := "Bridge.shutdown", phase := .shutdown, feedsAck := false, callsRetry := false }
-  have hl : l ∈ EkwVerif.Gen.RetryLoops.loops := by decide
+  have hl : EkwVerif.Gen.RetryLoops.loops[2]? =
+      some { name := "Bridge.shutdown", phase := .shutdown, feedsAck := false, callsRetry := false,
+             timeoutMs := some EkwVerif.Gen.RetryLoops.defaultTimeoutMs } := by decide
+  have hmem := List.mem_of_getElem? hl
   let cfg : Nat → Nat × (Nat → Option Nat) := fun a => (800, lookup (if a = 0 then [(1, 1)] else [(0, 0)]))
   have hreach : Reachable (run (init 20 cfg) [.send 0 1 7, .drop 0]) := ⟨20, cfg, _, by decide, rfl⟩
-  have := h l hl _ hreach 0 0 ⟨1, 7, 0, 20⟩ (by decide) (by decide)
-    (List.replicate 20 ([], 1001, 1, [])) (by decide) (by decide)
+  have := h _ hmem _ hreach 0 0 ⟨1, 7, 0, 20⟩ (by decide) (by decide) (by decide)
+    (List.replicate 20 ([], 1001, [Op.collect 0])) (by decide) (by decide) (by decide)
   revert this
   decide
 
